@@ -533,6 +533,21 @@ class FuncCanon(object):
             if not isinstance(st, ast.If):
                 continue
             t = st.test
+            # a constant test (a helper inlined with a literal flag): keep the arm that runs
+            if isinstance(t, ast.Constant):
+                blk[i:i + 1] = (st.body if t.value else st.orelse) or []
+                self.bump("CONSTIF")
+                return True
+            # if bool(x): -> if x:
+            if isinstance(t, ast.Call) and isinstance(t.func, ast.Name) and t.func.id == "bool" and len(t.args) == 1 and not t.keywords and not self.stores.get("bool"):
+                st.test = t.args[0]
+                self.bump("NOT")
+                return True
+            if isinstance(t, ast.UnaryOp) and isinstance(t.op, ast.Not) and isinstance(t.operand, ast.Call) and isinstance(t.operand.func, ast.Name) and t.operand.func.id == "bool" \
+                    and len(t.operand.args) == 1 and not t.operand.keywords and not self.stores.get("bool"):
+                t.operand = t.operand.args[0]
+                self.bump("NOT")
+                return True
             # not (a != b)  ->  a == b
             if isinstance(t, ast.UnaryOp) and isinstance(t.op, ast.Not) and isinstance(t.operand, ast.Compare) and not isinstance(negate(t.operand), ast.UnaryOp):
                 st.test = negate(t.operand)
